@@ -78,15 +78,15 @@ TRANSPARENT = {"ImplicitCastExpr", "ParenExpr", "ExprWithCleanups", "Materialize
                "CXXFunctionalCastExpr", "CXXStaticCastExpr", "CStyleCastExpr", "ConstantExpr"}
 
 
-def dump(repo, work):
+def dump(repo, work, filt="rkcommon::utility", out_name="ast.json"):
     os.makedirs(work, exist_ok=True)
     src = os.path.join(work, "c09_inst.cpp")
     with open(src, "w") as f:
         f.write(INST)
-    out = os.path.join(work, "ast.json")
+    out = os.path.join(work, out_name)
     inc = os.path.join(VERIF, "build", "include")
     cmd = ["clang++", "-std=c++11", "-I" + repo, "-I" + inc, "-fsyntax-only", "-Xclang", "-ast-dump=json",
-           "-Xclang", "-ast-dump-filter=rkcommon::utility", src]
+           "-Xclang", "-ast-dump-filter=" + filt, src]
     with open(out, "w") as f:
         p = subprocess.run(cmd, stdout=f, stderr=subprocess.PIPE, timeout=120, universal_newlines=True)
     if p.returncode != 0:
@@ -991,6 +991,146 @@ def trait_facts(docs, notes):
         notes.append("traits: %r" % (ex,))
     return tf
 
+# ------------------------------------------------------------------ inventory closure
+ANCHORED = ("rkcommon/utility/Optional.h", "rkcommon/utility/Any.h", "rkcommon/utility/getEnvVar.h", "rkcommon/traits/rktraits.h")
+MEMBER_KINDS = ("CXXConstructorDecl", "CXXDestructorDecl", "CXXMethodDecl", "CXXConversionDecl", "FieldDecl")
+
+
+def _tparams(t):
+    out = []
+    for x in inner(t):
+        k = x.get("kind")
+        if k == "TemplateTypeParmDecl":
+            out.append(("..." if x.get("isParameterPack") else "") + (x.get("name") or "_"))
+        elif k == "NonTypeTemplateParmDecl":
+            out.append(qt(x) + " " + (x.get("name") or "_"))
+    return ",".join(out)
+
+
+def _sig(c, cls=None):
+    k = c.get("kind")
+    nm = c.get("name") or ""
+    pre = (cls + "::") if cls else ""
+    if k == "FieldDecl":
+        return "%s%s : %s%s" % (pre, nm, "alignas " if any(a.get("kind") == "AlignedAttr" for a in inner(c)) else "", qt(c))
+    t = qt(c)
+    suffix = " = delete" if c.get("explicitlyDeleted") else (" = default" if c.get("explicitlyDefaulted") == "default" else "")
+    if c.get("pure"):
+        suffix += " = 0"
+    virt = "virtual " if c.get("virtual") else ""
+    if k in ("CXXConstructorDecl", "CXXDestructorDecl", "CXXConversionDecl"):
+        base = nm.split("<")[0] if k != "CXXConversionDecl" else nm
+        return "%s%s%s%s%s" % (pre, virt, base, t[t.find("("):] if "(" in t else "()", suffix)
+    ret = t[:t.find("(")].strip() if "(" in t else t
+    return "%s%s%s %s%s%s" % (pre, virt, ret, nm, t[t.find("("):] if "(" in t else "", suffix)
+
+
+def _record_members(rec, cls, inv):
+    for c in inner(rec):
+        k = c.get("kind")
+        if c.get("isImplicit") or k in ("AccessSpecDecl", "StaticAssertDecl"):
+            continue
+        if k == "CXXRecordDecl":
+            if inner(c):
+                inv.append("%s::struct %s%s" % (cls, c.get("name"), "".join(" : " + b.get("type", {}).get("qualType", "") for b in c.get("bases", []))))
+                _record_members(c, cls + "::" + c.get("name"), inv)
+            continue
+        if k == "ClassTemplateDecl":
+            rs = [x for x in inner(c) if x.get("kind") == "CXXRecordDecl"]
+            if rs:
+                inv.append("%s::template<%s> struct %s%s" % (cls, _tparams(c), c.get("name"),
+                           "".join(" : " + b.get("type", {}).get("qualType", "") for b in rs[0].get("bases", []))))
+                _record_members(rs[0], "%s::%s<%s>" % (cls, c.get("name"), _tparams(c)), inv)
+            continue
+        if k == "FunctionTemplateDecl":
+            ds = [x for x in inner(c) if x.get("kind") in MEMBER_KINDS]
+            if ds:
+                inv.append("%s::template<%s> %s" % (cls, _tparams(c), _sig(ds[0])))
+            continue
+        if k in MEMBER_KINDS:
+            inv.append(_sig(c, cls))
+            continue
+        if k in ("TypeAliasDecl", "TypedefDecl", "EnumDecl", "EnumConstantDecl", "VarDecl", "FriendDecl", "UsingDecl"):
+            if k == "EnumDecl":
+                inv.append("%s::enum {%s}" % (cls, ",".join(x.get("name") or "" for x in inner(c))))
+            else:
+                inv.append("%s::%s %s" % (cls, k, c.get("name")))
+            continue
+        inv.append("%s::%s %s" % (cls, k, c.get("name")))
+
+
+def inventory(docs_u, docs_t, notes):
+    """every declaration the four anchored headers make at namespace level, and every member of the classes they define
+    (in-class declarations; out-of-line definitions of members are the same declarations)"""
+    inv = []
+    special = {}
+    cur = [None]
+
+    def upd(loc):
+        if not isinstance(loc, dict):
+            return
+        for k in ("spellingLoc", "expansionLoc"):
+            if k in loc:
+                upd(loc[k])
+        if "file" in loc:
+            cur[0] = os.path.normpath(loc["file"])
+
+    def file_of(n):
+        upd(n.get("loc"))
+        upd((n.get("range") or {}).get("begin"))
+        return cur[0] or ""
+
+    def skim(n):             # keep the printer's "current file" state in step with the dump
+        upd(n.get("loc"))
+        r = n.get("range") or {}
+        upd(r.get("begin"))
+        for c in n.get("inner", []) or []:
+            if isinstance(c, dict):
+                skim(c)
+        upd(r.get("end"))
+
+    for docs, ns in ((docs_u, "utility"), (docs_t, "traits")):
+        for d in docs:
+            if d.get("kind") != "NamespaceDecl" or d.get("name") != ns:
+                skim(d)
+                continue
+            file_of(d)
+            for c in inner(d):
+                f = file_of(c)
+                anchored = any(f.endswith(a) for a in ANCHORED)
+                k = c.get("kind")
+                if anchored and not c.get("isImplicit"):
+                    if k == "ClassTemplateDecl":
+                        rs = [x for x in inner(c) if x.get("kind") == "CXXRecordDecl"]
+                        if rs and inner(rs[0]):
+                            inv.append("%s::template<%s> struct %s" % (ns, _tparams(c), c.get("name")))
+                            _record_members(rs[0], "%s<%s>" % (c.get("name"), _tparams(c)), inv)
+                    elif k == "CXXRecordDecl":
+                        if inner(c):
+                            inv.append("%s::struct %s" % (ns, c.get("name")))
+                            _record_members(c, c.get("name"), inv)
+                            dd = c.get("definitionData") or {}
+                            special[c.get("name")] = {kk: dd.get(kk) for kk in ("copyCtor", "moveCtor", "copyAssign", "moveAssign", "dtor", "defaultCtor")}
+                    elif k == "FunctionTemplateDecl":
+                        ds = [x for x in inner(c) if x.get("kind") == "FunctionDecl"]
+                        if ds:                           # (member templates defined out of line are CXXMethodDecl: skipped)
+                            inv.append("%s::template<%s> %s" % (ns, _tparams(c), _sig(ds[0])))
+                    elif k == "FunctionDecl":
+                        inv.append("%s::%s%s" % (ns, "template<> " if any(x.get("kind") == "TemplateArgument" for x in inner(c)) else "", _sig(c)))
+                    elif k in ("TypeAliasDecl", "TypedefDecl"):
+                        inv.append("%s::using %s = %s" % (ns, c.get("name"), qt(c)))
+                    elif k == "TypeAliasTemplateDecl":
+                        inv.append("%s::template<%s> using %s" % (ns, _tparams(c), c.get("name")))
+                    elif k in ("CXXConstructorDecl", "CXXDestructorDecl", "CXXMethodDecl", "CXXConversionDecl"):
+                        pass                             # out-of-line definition of a member declared in its class
+                    elif k == "NamespaceDecl":
+                        pass
+                    else:
+                        inv.append("%s::%s %s" % (ns, k, c.get("name")))
+                skim(c)
+    return inv, special
+
+
 
 def extract(repo, work):
     notes = []
@@ -1000,7 +1140,12 @@ def extract(repo, work):
     toks, holder = any_facts(docs, notes)
     env, generic = env_facts(docs, notes)
     tf = trait_facts(docs, notes)
-    return dict(env=env, env_generic=generic, traits=tf, table={m: {"fresh": table[m][0], "prog": table[m][1]} for m in METHS}, cmp=cmp, misc=misc, lay=lay,
+    try:
+        inv, special = inventory(docs, dump(repo, work, "rkcommon::traits", "ast_traits.json"), notes)
+    except Exception as ex:
+        notes.append("inventory: %r" % (ex,))
+        inv, special = [], {}
+    return dict(inventory=inv, special_members=special, env=env, env_generic=generic, traits=tf, table={m: {"fresh": table[m][0], "prog": table[m][1]} for m in METHS}, cmp=cmp, misc=misc, lay=lay,
                 any=toks, holder=holder, notes=notes)
 
 
@@ -1010,6 +1155,7 @@ def unknown_facts(note):
                 lay=dict(lf_alignas_payload=False, lf_align_value=0, lf_elem_bytes=0, lf_extent=0, lf_payload_align=P_ALIGN,
                          lf_payload_size=P_SIZE, lf_flag_default_false=False),
                 any={m: ["TUnknown"] for m in AMETHS}, holder="HOther", notes=[note],
+                inventory=[], special_members={},
                 env={k: ["EUnknown"] for k in ("KInt", "KFloat", "KStr")}, env_generic=False,
                 traits=dict(tf_eq_int=False, tf_eq_string=False, tf_eq_payload=False, tf_eq_noeq=True, tf_same_dispatch=False,
                             tf_impl_eq_shape=False, tf_impl_noeq_false=False))
@@ -1040,6 +1186,12 @@ def coq_text(f):
     L += ["Definition gen_env (k : kind) : list etok :=", "  match k with"]
     L += ["  | %s => [%s]" % (k, "; ".join(f["env"][k])) for k in ("KInt", "KFloat", "KStr")]
     L += ["  end.", "", "Definition gen_env_generic_empty : bool := %s." % b(f["env_generic"]), ""]
+    sp = (f.get("special_members") or {}).get("Any") or {}
+    ex = lambda k: bool((sp.get(k) or {}).get("exists") or (sp.get(k) or {}).get("userDeclared"))
+    L += ["Definition gen_anyspecial : anyspecial :=",
+          "  {| as_copy_ctor_user := %s; as_copy_assign_user := %s; as_move_ctor_exists := %s; as_move_assign_exists := %s |}."
+          % (b((sp.get("copyCtor") or {}).get("userDeclared")), b((sp.get("copyAssign") or {}).get("userDeclared")),
+             b(ex("moveCtor") if sp else True), b(ex("moveAssign") if sp else True)), ""]
     tfk = ["tf_eq_int", "tf_eq_string", "tf_eq_payload", "tf_eq_noeq", "tf_same_dispatch", "tf_impl_eq_shape", "tf_impl_noeq_false"]
     L += ["Definition gen_traits : traitfacts :=", "  {| " + "; ".join("%s := %s" % (k, b(f["traits"][k])) for k in tfk) + " |}.", ""]
     return "\n".join(L)
